@@ -848,6 +848,132 @@ pub fn run_estimate(focus: &'static str, seed: u64, index: u64) -> CaseOut {
     CaseOut { findings, counts, signature, nontrivial, sample }
 }
 
+// ------------------------------------------------------------------------------------------------ C04: a delete releases exactly the key's weight
+
+/// Model-free conservation around deletes: one client, a handful of keys whose weights are raised and lowered through upserts (also far
+/// beyond the limit of the cache, which updates are allowed to do), time-to-live added and removed; before every delete the total and the
+/// weight charged for the key are read, after the accepted delete the total must have dropped by exactly that weight, the key must read
+/// absent, must not be charged, and a second delete must be refused; in the end every key is deleted and the total must be zero, then every
+/// key is put again.
+pub fn run_release(focus: &'static str, seed: u64, index: u64) -> CaseOut {
+    let mut rng = rt::rng_for(seed, index, 0x4E1);
+    let keys = rng.range(2, 6);
+    let max_weight = *rng.pick(&[300i64, 1000, 100_000]);
+    let sutcfg = SutCfg { counters: 100, capacity: 16, max_weight, shards: *rng.pick(&[2usize, 4]), cmd_buf: 8, pool: 1, buf: 2, tick: Duration::from_millis(1),
+        weight_mode: WeightMode::Custom, hash_mode: HashMode::Default, start_ns: rt::START_NS };
+    let case = J::obj().with("engine", J::s("conc")).with("scenario", J::s("release")).with("focus", J::s(focus)).with("seed", J::Int(seed as i128)).with("index", J::Int(index as i128))
+        .with("keys", J::Int(keys as i128)).with("max_weight", J::Int(max_weight as i128));
+    let mut counts = Counts::default();
+    let mut findings = Vec::new();
+    rt::clear_abort();
+    let r = recorder();
+    r.keep.store(false, Ordering::SeqCst);
+    let _ = r.take_events();
+    let _ = r.take_weight_violations();
+    sched().release_all();
+    sched().quiet();
+    let sut = Sut::new(sutcfg);
+    let marks = sut.marks;
+    let mut client = Client::new(1);
+    let mut steps = J::arr();
+    let mut sig = 0x4E1u64;
+    let run = |client: &mut Client, op: WriteOp| -> Option<CommandStatus> {
+        let at = client.write(&sut.cache, op);
+        client.settle_all(&marks);
+        match &client.log[at].outcome { Outcome::Write { status: Some(Waited::Ready(status)), .. } => Some(*status), _ => None }
+    };
+    let per_key = (max_weight / (keys as i64 + 1)).min(60).max(31);
+    for key in 1..=keys { let value = client.token(key); let _ = run(&mut client, WriteOp::PutW { key, value, weight: per_key }); }
+    let rounds = rng.range(6, 20);
+    let mut stuck = false;
+    'rounds: for round in 0..rounds + keys {
+        let final_phase = round >= rounds;
+        let key = if final_phase { round - rounds + 1 } else { rng.range(1, keys) };
+        if !final_phase {
+            // shape the key first: raise / lower its weight (now and then far beyond what the cache may hold), add or remove a time-to-live
+            for _ in 0..rng.range(0, 3) {
+                let held = sut.cache.get(&key).is_some();
+                if !held { let value = client.token(key); let _ = run(&mut client, WriteOp::PutW { key, value, weight: per_key }); continue; }
+                let op = match rng.below(5) {
+                    0 => WriteOp::Upsert { key, value: None, weight: Some(max_weight + rng.range(1, 500) as i64), ttl: None, remove_ttl: false },
+                    1 => WriteOp::Upsert { key, value: None, weight: Some(rng.range(31, 90) as i64), ttl: None, remove_ttl: false },
+                    2 => WriteOp::Upsert { key, value: Some(client.token(key)), weight: Some(rng.range(31, 90) as i64), ttl: Some(Duration::from_secs(3600)), remove_ttl: false },
+                    3 => WriteOp::Upsert { key, value: None, weight: None, ttl: Some(Duration::from_secs(7200)), remove_ttl: false },
+                    _ => WriteOp::Upsert { key, value: Some(client.token(key)), weight: None, ttl: None, remove_ttl: false },
+                };
+                sig = fnv_step(sig, rng.below(1) + match &op { WriteOp::Upsert { weight: Some(w), .. } if *w > max_weight => 7, WriteOp::Upsert { ttl: Some(_), .. } => 5, _ => 3 });
+                steps.push(op.to_json());
+                if matches!(&op, WriteOp::Upsert { weight: Some(w), .. } if *w > max_weight) { counts.inc("weights_raised_beyond_the_limit_of_the_cache"); }
+                if run(&mut client, op).is_none() { stuck = true; break 'rounds; }
+            }
+        }
+        if sut.quiesce().is_err() { stuck = true; break; }
+        let _ = r.take_weight_violations();
+        let snapshot = sut.snapshot();
+        let stored = snapshot.stored.iter().find(|e| e.0 == key).map(|e| (e.1, e.3));
+        let before = sut.cache.total_weight_used();
+        let charged = stored.and_then(|(id, _)| sut.cache.verif_charged_weight(id));
+        steps.push(WriteOp::Delete { key }.to_json());
+        let status = match run(&mut client, WriteOp::Delete { key }) { Some(s) => s, None => { stuck = true; break; } };
+        let after = sut.cache.total_weight_used();
+        let witness = || case.clone().with("steps", steps.clone());
+        match (stored, status) {
+            (Some((id, false)), CommandStatus::Accepted) => {
+                counts.inc("deletes_of_held_keys_judged");
+                let charged = charged.unwrap_or(0);
+                if after != before - charged {
+                    fail(&mut findings, &["C04", "C05"], "C04/delete-did-not-release-exactly-the-weight-of-the-key".into(),
+                         format!("key {} (id {}) was charged {}: the total was {} before its delete and is {} after it instead of {}", key, id, charged, before, after, before - charged), witness());
+                }
+                if sut.cache.verif_charged_weight(id).is_some() { fail(&mut findings, &["C04", "C05"], "C04/weight-still-charged-after-delete".into(), format!("id {} of key {} is still charged after its accepted delete", id, key), witness()); }
+                if sut.cache.get(&key).is_some() { fail(&mut findings, &["C04", "C02"], "C04/deleted-key-still-readable".into(), format!("key {} is readable after its accepted delete", key), witness()); }
+                if charged > max_weight { counts.inc("deletes_of_keys_heavier_than_the_cache"); }
+            }
+            (None, CommandStatus::Rejected(RejectionReason::KeyDoesNotExist)) => {
+                counts.inc("deletes_of_absent_keys_judged");
+                if after != before { fail(&mut findings, &["C04"], "C04/refused-delete-changed-the-total".into(), format!("delete of absent key {} moved the total from {} to {}", key, before, after), witness()); }
+            }
+            (Some((_, false)), other) => fail(&mut findings, &["C04"], "C04/delete-of-held-key-not-accepted".into(), format!("delete of held key {} resolved to {}", key, status_name(&other)), witness()),
+            (None, other) => fail(&mut findings, &["C04"], "C04/delete-of-absent-key-not-refused".into(), format!("delete of absent key {} resolved to {}", key, status_name(&other)), witness()),
+            _ => {}
+        }
+        if !findings.is_empty() { break; }
+        // a second delete is refused and changes nothing
+        if rng.chance(1, 3) {
+            let status = run(&mut client, WriteOp::Delete { key });
+            if status != Some(CommandStatus::Rejected(RejectionReason::KeyDoesNotExist)) || sut.cache.total_weight_used() != after {
+                fail(&mut findings, &["C04"], "C04/second-delete-not-refused-or-changed-something".into(), format!("second delete of key {}: {:?}, total {} -> {}", key, status.map(|s| status_name(&s)), after, sut.cache.total_weight_used()), witness());
+                break;
+            }
+            counts.inc("second_deletes_refused");
+        }
+    }
+    if !stuck && findings.is_empty() {
+        let _ = sut.quiesce();
+        let left = sut.cache.total_weight_used();
+        if left != 0 {
+            fail(&mut findings, &["C04", "C05"], "C04/weight-left-after-deleting-every-key".into(), format!("every key was deleted and acknowledged, yet the total weight used is {}", left), case.clone().with("steps", steps.clone()));
+        }
+        // every key can be put again
+        for key in 1..=keys {
+            let value = client.token(key);
+            match run(&mut client, WriteOp::PutW { key, value, weight: per_key }) {
+                Some(CommandStatus::Accepted) => { counts.inc("reputs_after_delete_accepted"); }
+                Some(other) => { fail(&mut findings, &["C04", "C07"], "C04/deleted-key-cannot-be-put-again".into(), format!("put of deleted key {} resolved to {}", key, status_name(&other)), case.clone().with("steps", steps.clone())); break; }
+                None => { stuck = true; break; }
+            }
+        }
+        counts.inc("final_zero_total_checks");
+    }
+    if stuck { findings.push(Finding { props: vec!["C04"], signature: "inconclusive/release".into(), detail: "an acknowledgement did not resolve normally".into(), witness: J::Null, inconclusive: true }); }
+    let _ = r.take_weight_violations();
+    let sample = case.clone().with("steps", steps);
+    if let Err(waited) = sut.finish_or_leak() { if findings.is_empty() { findings.push(Finding { props: vec!["C04"], signature: "inconclusive/finish".into(), detail: waited_name(&waited), witness: J::Null, inconclusive: true }); } }
+    counts.inc("cases");
+    let nontrivial = counts.get("deletes_of_held_keys_judged") > 0;
+    CaseOut { findings, counts, signature: fnv_step(sig, keys), nontrivial, sample }
+}
+
 // ------------------------------------------------------------------------------------------------ bare workload (sanitizers, Miri)
 
 /// The same kind of mixed concurrent workload, but with NO harness hooks installed and no shared harness state
